@@ -12,14 +12,21 @@
      score / score-order / marker / raw   NRT score differs from the sends sorted by (time, send order)   *)
 EXTENDS LogicalTime, Json, IOUtils
 Traces == JsonDeserialize(IOEnv.VERIF_TRACES)
-VARIABLES tid, l, st, seen
-tv == <<tid, l, st, seen>>
+VARIABLES tid, l, st, seen, up
+tv == <<tid, l, st, seen, up>>
+(* up: play() calls of plain threads that have been invoked ("uplay" event, logged before the call) and have not yet
+   taken effect.  play() takes the library lock first, so it takes effect at some point between the call and its return
+   ("uplayed"): that point is not logged, TLC tries every one (silent step TLin), the trace is accepted if one fits. *)
 
-TInit == /\ tid \in 1..Len(Traces) /\ l = 1 /\ seen = 0
+TInit == /\ tid \in 1..Len(Traces) /\ l = 1 /\ seen = 0 /\ up = <<>>
          /\ st = Main(Init0(Traces[tid].prog), Traces[tid].prog, Traces[tid].mode, 1)
 
 SameObs(a, b) == a.k = b.k /\ a.r = b.r /\ a.n = b.n /\ a.secs = b.secs /\ a.beats = b.beats /\ a.tag = b.tag
                  /\ a.sk = b.sk /\ a.stamp = b.stamp /\ a.subk = b.subk /\ a.sub = b.sub /\ a.sub2 = b.sub2
+
+(* T.lenient (C07): what a routine reads as its logical time is C05's business; an obs that differs only in the
+   times is passed over, so that the stamps of its bundles are still judged against the reference's logical time *)
+Match(T, a, b) == SameObs(a, b) \/ (T.lenient /\ a.k = "obs" /\ b.k = "obs" /\ a.r = b.r /\ a.n = b.n)
 
 (* NRT score = root node, then every send and the tail marker (added last, at last wake + tail) in
    (time, send order).  The marker closes the score whenever no bundle is stamped later than it
@@ -40,22 +47,27 @@ ScoreWhy(T, s) ==
 (* asynchronous events of plain threads: a bundle sent outside any routine carries the physical time of the
    call plus its latency; an incoming message is delivered with its own timetag, or the arrival time *)
 MainInstr(T, tag) == LET ix == {j \in 1..Len(T.prog.main) : T.prog.main[j].s = tag} IN T.prog.main[CHOOSE j \in ix : TRUE]
-Async(T, e) ==
+Async(T, s, e) ==
     IF ~\E j \in 1..Len(T.prog.main) : T.prog.main[j].s = e.tag THEN "unknown-tag" ELSE
     LET i == MainInstr(T, e.tag) IN
     IF e.k = "ubndl"
     THEN LET imm == i.b = 1 \/ i.a < 0 IN
          IF imm THEN (IF e.sk = "i" THEN "ok" ELSE "ubndl")
-         ELSE IF e.sk = "t" /\ e.stamp = e.secs + i.a THEN "ok" ELSE "ubndl"
+         ELSE IF e.sk = "t" /\ e.stamp = e.secs + i.a THEN "ok"
+         \* a separate clause for one recognisable cause: the bundle carries the logical time of the routine a clock
+         \* thread was inside of when the plain thread sent it (e.r2), instead of the physical time of the call
+         ELSE IF e.sk = "t" /\ e.r2 \in DOMAIN s.rt /\ e.stamp = s.rt[e.r2].lt + i.a THEN "ubndl-in-routine"
+         ELSE "ubndl"
     ELSE \* recv: e.secs = time argument given to the responder, e.stamp = arrival time
          IF i.b = 0 THEN (IF e.secs = i.a THEN "ok" ELSE "recv")
          ELSE IF e.secs = e.stamp THEN "ok" ELSE "recv"
 
 Step(T, s, e, k) ==
     \* k = number of reference outputs already matched; outputs accumulate in s.out
-    IF e.k \in {"ubndl", "recv"} THEN [st |-> s, seen |-> k, why |-> Async(T, e)] ELSE
+    IF e.k \in {"ubndl", "recv"} THEN [st |-> s, seen |-> k, why |-> Async(T, s, e)] ELSE
+    IF e.k \in {"uplay", "uplayed"} THEN [st |-> s, seen |-> k, why |-> "ok"] ELSE       \* see TStep / TLin
     IF k < Len(s.out)
-    THEN IF SameObs(s.out[k + 1], e) THEN [st |-> s, seen |-> k + 1, why |-> "ok"]
+    THEN IF Match(T, s.out[k + 1], e) THEN [st |-> s, seen |-> k + 1, why |-> "ok"]
          ELSE [st |-> s, seen |-> k, why |-> s.out[k + 1].k]
     ELSE IF e.k = "obs"
     THEN LET s0 == DropFor(s, T.mode, e.r) IN
@@ -63,7 +75,7 @@ Step(T, s, e, k) ==
          ELSE IF T.mode = "nrt" /\ e.secs < s0.last THEN [st |-> s0, seen |-> k, why |-> "time-decreased"]
          ELSE LET s1 == Wake(s0, T.prog, T.mode, e.r) IN
               IF s1.bad # "ok" THEN [st |-> s1, seen |-> k, why |-> s1.bad]
-              ELSE IF Len(s1.out) > k /\ SameObs(s1.out[k + 1], e) THEN [st |-> s1, seen |-> k + 1, why |-> "ok"]
+              ELSE IF Len(s1.out) > k /\ Match(T, s1.out[k + 1], e) THEN [st |-> s1, seen |-> k + 1, why |-> "ok"]
               ELSE [st |-> s1, seen |-> k, why |-> "obs"]
     ELSE IF e.k = "end"
     THEN LET s0 == DropPaused(s) IN
@@ -74,14 +86,21 @@ Step(T, s, e, k) ==
     ELSE [st |-> s, seen |-> k, why |-> "unexpected-" \o e.k]
 
 TStep == /\ l >= 1 /\ l <= Len(Traces[tid].ev)
-         /\ LET r == Step(Traces[tid], st, Traces[tid].ev[l], seen) IN
-            IF r.why = "ok" THEN st' = r.st /\ seen' = r.seen /\ l' = l + 1 /\ tid' = tid
+         /\ ~(Traces[tid].ev[l].k = "uplayed" /\ up # <<>>)       \* it has taken effect when it returns
+         /\ LET e == Traces[tid].ev[l]
+                r == Step(Traces[tid], st, e, seen) IN
+            IF r.why = "ok" THEN /\ st' = r.st /\ seen' = r.seen /\ l' = l + 1 /\ tid' = tid
+                                 /\ up' = IF e.k = "uplay" THEN Append(up, [r |-> e.r, secs |-> e.secs]) ELSE up
             ELSE /\ PrintT(<<"REJ", Traces[tid].id, l, r.why>>)
                  /\ (r.seen < Len(r.st.out) => PrintT(<<"EXPECTED", Traces[tid].id, r.st.out[r.seen + 1]>>))
-                 /\ l' = 0 /\ UNCHANGED <<st, seen, tid>>
-TDone == /\ l = Len(Traces[tid].ev) + 1
+                 /\ l' = 0 /\ UNCHANGED <<st, seen, tid, up>>
+\* a plain thread's play() of a routine without naming a clock takes effect: SystemClock, at the physical time of the call
+TLin == /\ l >= 1 /\ up # <<>>
+        /\ st' = PlayQ(st, Traces[tid].prog, up[1].secs, up[1].r, "", "sys", "main", 0, 0)
+        /\ up' = Tail(up) /\ UNCHANGED <<tid, l, seen>>
+TDone == /\ l = Len(Traces[tid].ev) + 1 /\ up = <<>>
          /\ IF seen = Len(st.out) THEN PrintT(<<"ACC", Traces[tid].id>>)
             ELSE PrintT(<<"REJ", Traces[tid].id, l, "missing-" \o st.out[seen + 1].k>>)
-         /\ l' = 0 - 1 /\ UNCHANGED <<st, seen, tid>>
-TSpec == TInit /\ [][TStep \/ TDone]_tv
+         /\ l' = 0 - 1 /\ UNCHANGED <<st, seen, tid, up>>
+TSpec == TInit /\ [][TStep \/ TLin \/ TDone]_tv
 =============================================================================
